@@ -177,6 +177,11 @@ func c13System(rng *rand.Rand) (sig, detail string, trace []string, shape string
 	if rng.Intn(3) != 0 {
 		silentAt = rng.Intn(n + 1)
 	}
+	if silentAt < 0 {
+		// healthy run: a generous timeout, so that only a response that really never arrives can end
+		// the connection (a small timeout could expire under machine load and legitimately close it)
+		sc.TimeoutMs = 3000
+	}
 	tag := 0
 	for i := 0; i <= n; i++ {
 		if i == silentAt {
